@@ -20,11 +20,11 @@ def run(tier):
     irrules.aggregate(ck, res)
     res = [r for r in res if r['ok']]
     ck.floor('functions writing container words (summed over TUs)', sum(r['res']['functions'] for r in res),
-             1500 if tier == 'quick' else 15000)
+             1000 if tier == 'quick' else 10000)
     ck.floor('exits at which a (pointer, capacity) pair was checked', sum(r['res']['writer_exits'] for r in res),
              300 if tier == 'quick' else 3000)
     ck.floor('functions containing a buffer hand-over', sum(r['res']['steal_functions'] for r in res),
-             60 if tier == 'quick' else 600)
+             40 if tier == 'quick' else 400)
     # R02.5 also on the NDEBUG flavour: with asserts on, a path that violates an internal consistency
     # assert ends in __assert_fail and is not a returning path; what users run has no such cut
     # The same for R02.1 (the pair written must be consistent whatever an assert would have said);
